@@ -56,6 +56,7 @@ type World struct {
 	Desc    bool
 	Invalid map[int]map[string]bool // per node: block tags its consumer rejects
 	SloppyValidator bool // consumer validators accept a missing block (robustness runs of C12)
+	CommitFails     bool // every commit callback fails
 	MaxCommits      int  // > 0: the consumer's commit callback fails from the (MaxCommits+1)-th block on (bounds runs in which a member decides heights alone)
 	// Validate runs strict ValidateBlockConsensus on a different correct node (C03).
 	Validate func(block interfaces.Block, proof []byte, prevProof []byte) error
@@ -98,7 +99,7 @@ func NewLNode(w *World, idx int) *LNode {
 	cfg := &interfaces.Config{InstanceId: kit.Instance, Communication: n.Comm, Membership: n.Mem, BlockUtils: n.BU, KeyManager: n.KM,
 		OverrideElectionTrigger: n.Trig, Storage: n.Store}
 	n.V = lh.NewVerifNode(cfg, func(ctx context.Context, b interfaces.Block, p []byte) error {
-		if n.CommitErr || (w.MaxCommits > 0 && len(n.Blocks) >= w.MaxCommits) {
+		if n.CommitErr || w.CommitFails || (w.MaxCommits > 0 && len(n.Blocks) >= w.MaxCommits) {
 			return fmt.Errorf("consumer failed to commit")
 		}
 		n.Blocks = append(n.Blocks, b)
